@@ -1583,6 +1583,7 @@ func verifyFunc(w *World, sp *Specs, prog *Program, fi *FuncInfo, spec *FuncSpec
 		x.params[p.Name()] = st.vars[p].T
 	}
 	x.entry = st.fork()
+	x.observe = x.observations(st, sig)
 	env := &SEnv{x: x, st: st, binds: map[string]Val{}, pkg: fi.pkgPath(), own: true, pos: fi.decl.Body.Lbrace + 1, entryParams: true}
 	for _, c := range spec.Clauses {
 		if c.Kind == "requires" && c.relevant(prop) {
@@ -1780,4 +1781,49 @@ func (x *Exec) checkFrame(st *State) {
 			x.oblige(st, "frame", "frame:"+name, frameTags, and(goals...))
 		}
 	}
+}
+
+// observations lists, for the integer-slice and integer-map parameters of a function, the terms
+// whose values in a counterexample model describe those arguments in the entry state: the
+// replay builds real slices and maps from them (replay.go).
+const obsMax = 12
+
+func (x *Exec) observations(st *State, sig *types.Signature) []obsTerm {
+	var out []obsTerm
+	isInt := func(t types.Type) bool {
+		_, _, ok := intRange(t)
+		return ok
+	}
+	var slices []string
+	for i := 0; i < sig.Params().Len(); i++ {
+		p := sig.Params().At(i)
+		if sl, ok := types.Unalias(p.Type()).Underlying().(*types.Slice); ok && isInt(sl.Elem()) {
+			c := st.vars[p].T
+			slices = append(slices, p.Name())
+			out = append(out, obsTerm{p.Name() + "#len", app("sl_len", c)}, obsTerm{p.Name() + "#nil", app("=", app("sl_arr", c), "0")})
+			for k := 0; k < obsMax; k++ {
+				out = append(out, obsTerm{fmt.Sprintf("%s#%d", p.Name(), k), app("select", app("select", "H0_arr_Int", app("sl_arr", c)), app("at", app("sl_off", c), fmt.Sprint(k)))})
+			}
+		}
+	}
+	for i := 0; i < sig.Params().Len(); i++ {
+		p := sig.Params().At(i)
+		if m, ok := types.Unalias(p.Type()).Underlying().(*types.Map); ok && isInt(m.Key()) && isInt(m.Elem()) {
+			c := st.vars[p].T
+			out = append(out, obsTerm{p.Name() + "#nil", app("=", c, "0")})
+			for _, sn := range slices {
+				for k := 0; k < obsMax; k++ {
+					var key string
+					for _, o := range out {
+						if o.Name == fmt.Sprintf("%s#%d", sn, k) {
+							key = o.Term
+						}
+					}
+					out = append(out, obsTerm{fmt.Sprintf("%s@%s#%d#dom", p.Name(), sn, k), app("select", app("select", "H0_mdom_Int", c), key)},
+						obsTerm{fmt.Sprintf("%s@%s#%d#val", p.Name(), sn, k), app("select", app("select", "H0_mval_Int", c), key)})
+				}
+			}
+		}
+	}
+	return out
 }
